@@ -78,6 +78,23 @@ CHECKS = {
             "muzzle/barrel configuration; TLC behaviours drive the real filter (flags and seen_zero per call); real extra-data shots are "
             "validated per iteration (missing/spurious/duplicate flags, within-one-step bounds, row order, zeros() accessor).",
             "Design model bounded (ranges <= 12 units, advances <= 4, <= 6 wind ends); real shots are seeded samples projected with a 1e-10 band on threshold predicates; hooks H1 must be present (PYBC_VERIF=1).", "DESIGN.md §4 C15"),
+    "C13": ("TLA+ spec Quantity.tla (display-unit state machine, hash rules) model-checked by TLC; TLC-simulated behaviours "
+            "replayed on real quantity objects of all 7 dimensions",
+            "TLC checks display-in-dimension, equal-hash-equal, hash stability and no-foreign-value over all operation sequences "
+            "(depth 3/4) and refutes the pinned hash rule; behaviours of 8 operations (convert, <<, Unit(q), >>, get_in, comparisons, "
+            "hash, str/repr/float, pass-as-argument) are replayed: raw_value bit-identical and display unit as specified after every "
+            "operation, values independent of history, comparisons/hash by magnitude, foreign reads raise.",
+            "Behaviours sampled by TLC simulation (every candidate successor emitted); 3 objects, 2 dimensions per behaviour rotating "
+            "over all 7; cross-dimension comparisons not demanded.", "DESIGN.md §4 C13"),
+    "C18": ("TLA+ specs Config.tla (frozen settings / global step) and UnitNames.tla (golden name table) model-checked by TLC; "
+            "histories and every name case replayed on the real library; Trace_Integrator validates Use() shots with the constants the spec assigns",
+            "TLC checks settings frozen at creation, computations governed by the calculator's own step (the 'live' deviation is "
+            "refuted), non-positive global steps rejected; generated histories are replayed comparing every calculator's settings and "
+            "the global after each operation, each Use fires a recorded shot checked for the step bound; gravity, limits, zero accuracy "
+            "and iteration cap are checked on real computations; all 41 names + 116 aliases + unknown strings x cases x 6 entry points "
+            "are replayed against the golden table.",
+            "Histories sampled by TLC simulation; golden alias table transcribed once from the pinned tree's documented table; slot "
+            "names are accepted unit strings; wrong-dimension names not exercised.", "DESIGN.md §4 C18"),
 }
 
 NOT_APPLICABLE = {
